@@ -37,6 +37,7 @@ POOLS = {
     "ol": [None, [], ["a"], ["a", "b"], ["red", "green", "blue"]],        # object cells that are lists (unhashable)
     "y": ["a", "b", "ab", "B"],
     "i8": [-128, -127, -1, 0, 1, 127],
+    "u64": [0, 1, 5, 2**63, 2**63 + 2048, 2**64 - 2048],       # unsigned values no int64 holds
     "u8": [0, 1, 2, 254, 255],
     "f32": [NAN, 0.0, -0.0, 1.0, -1.5, 0.1, INF, -INF, 16777216.0, 3.4028234663852886e38],    # 0.1 is not a float32 value: rounded on build
     "i32": [0, 1, -1, 7, 2**31 - 1, -2**31],
@@ -49,7 +50,7 @@ TIGHT = {
     "t": [None, "1970-01-01T00:00:00.000001", "2020-12-31T12:00:00"], "tm": POOLS["tm"][:3], "ts": POOLS["ts"][:3],
     "td": [None, 0, 1], "tn": [None, "2020-12-31T12:00:00.000000500", "2020-12-31T12:00:00.000000499", "2020-12-31T12:00:00.000001"],
     "o": [None, "a", "b"], "oi": [None, 1, 2], "ob": [None, True, False], "obn": [None, True, False], "ol": [None, ["a"], ["a", "b"]], "y": ["a", "b"],
-    "i8": [-128, 0, 127], "u8": [0, 1, 255], "f32": [NAN, 0.0, 1.0, 0.5], "i32": [0, 1, 2**31 - 1],
+    "i8": [-128, 0, 127], "u8": [0, 1, 255], "u64": [0, 2**63, 2**64 - 2048], "f32": [NAN, 0.0, 1.0, 0.5], "i32": [0, 1, 2**31 - 1],
 }
 
 _text = st.text(alphabet=st.characters(blacklist_categories=("Cs",), blacklist_characters="\x00"), max_size=12)
@@ -76,6 +77,7 @@ TAILS = {
     "ol": st.lists(st.sampled_from(["a", "b", "c"]), max_size=3),
     "y": st.text(alphabet="abAB", min_size=1, max_size=3),
     "i8": st.integers(-128, 127),
+    "u64": st.sampled_from([0, 1, 2**32, 2**62, 2**63, 2**64 - 4096]),
     "u8": st.integers(0, 255),
     "f32": st.floats(allow_nan=True, allow_infinity=True, width=32),
     "i32": st.integers(-2**31, 2**31 - 1),
